@@ -120,7 +120,7 @@ func genUndBig(g *vlib.G) {
 								undirectedTopo(c, b, o)
 								heuristicColorings(c, b, sub, idk+v)
 							})
-							runSticky(t, "und-big", key+"|exact", idk, v, func(c *chk) { exactColoring(c, b, chi) })
+							runSticky(t, "und-big", key+"|exact", idk, v, func(c *chk) { exactColoring(c, b, chi, false) })
 							bw, wg := buildWeighted(&s, idk, v, w)
 							run(t, "und-big", key+"|span", idk, v, func(c *chk) { spanChecks(c, bw, wg, w, -1, len(o.comps)) })
 						}
